@@ -35,7 +35,7 @@ try:
   if not ONLY_REPO:
       rc, o = sh(f"{PY} -m compileall -q skchange", wt)
       out["compiles"] = rc == 0
-      rc, o = sh(f"{PY} {seed}/demo.py", wt)
+      rc, o = sh(f"PYTHONPATH={wt} {PY} {seed}/demo.py", wt)
       out["demo_with_change_rc"] = rc
       junit = f"/tmp/scratch/junit_{os.path.basename(seed)}.xml"
       rc, o = sh(f"{PY} -m pytest -q -p no:cacheprovider -n {NPROC} --junitxml={junit} 2>&1 | tail -3", wt)
@@ -58,7 +58,7 @@ finally:
     if not ONLY_REPO:
         sh("git checkout -- .", wt)
 if not ONLY_REPO:
-    rc, o = sh(f"{PY} {seed}/demo.py", wt)
+    rc, o = sh(f"PYTHONPATH={wt} {PY} {seed}/demo.py", wt)
     out["demo_clean_rc"] = rc
 if NO_REPO:
     out["checks"] = {}
